@@ -1,6 +1,7 @@
 import Proofs.Lemmas.AliasStore
 import Proofs.Lemmas.AliasPref
 import Proofs.Lemmas.AliasClass
+import Proofs.Lemmas.AliasFail
 /-
 C18 — An alias is indistinguishable from the variable it names.
 
@@ -626,6 +627,162 @@ theorem reassignment_leaves_other_declarations (cs : Classes α) (c c' : Nat) (m
     classAliases (stepClasses cs (.setAliases c m)) c' = m' := by
   simp [classAliases, stepClasses, lookupAttr_succ, getElem?_setAt, hne, hd, hm]
 
+/-! ## 7. Error paths: what a failed operation leaves behind
+
+The instance is `Obj`: the container state, `self.names`, `self.aliases`, `self.preferred_names` — the mixin's
+fields are part of the state here, so "they are not touched" is a theorem and not a typing artefact.  Operations:
+the accessors of §2, `eval`, `add_variable`, `obj.preferred_names = …`, the export, `get_closest_match`.  The error
+paths that compute a suggestion (`strict=True` rejection, undefined name in `eval`) READ `self.names` through
+`get_closest_match` and nothing else (`suggest`). -/
+
+/-- **A failed operation leaves the instance exactly as it was** — every modelled operation except
+    `replace_values`, whatever failed: unknown name under `strict=True` (`AttributeError` / `NotImplementedError`),
+    unknown key (`KeyError`), ill-shaped value, bad label, undefined name in `eval`, `add_variable` of a taken name
+    / storage key / with an ill-shaped value, `preferred_names` under `strict=True`, ambiguous export.  For
+    `replace_values` (the one loop of stores): everything but the contents of the series — the name list, the alias
+    map, the preferred names, the index, `_strict` — is as it was (`failed_replace_is_prefix` says what the series
+    hold). -/
+theorem failed_op_preserves_state (env : Env α V P) (o : Obj α V P) (op : XOp α P)
+    (hf : (xstep env o op).2.failed = true) :
+    (op.isBulk = false → (xstep env o op).1 = o) ∧
+    (xstep env o op).1.names = o.names ∧ (xstep env o op).1.aliases = o.aliases ∧
+    (xstep env o op).1.pref = o.pref ∧ (xstep env o op).1.prefListed = o.prefListed ∧
+    (xstep env o op).1.store.index = o.store.index ∧ (xstep env o op).1.store.strict = o.store.strict := by
+  cases op with
+  | acc op' =>
+    by_cases h : ∃ n p, op' = .setAttr n p
+    · obtain ⟨n, p, rfl⟩ := h
+      rw [xstep_setAttr] at hf ⊢
+      by_cases hr : strictRejects o.store (resolve o.aliases n) = true
+      · rw [if_pos hr]
+        exact ⟨fun _ => rfl, rfl, rfl, rfl, rfl, rfl, rfl⟩
+      · rw [if_neg hr] at hf ⊢
+        obtain ⟨h1, h2, h3, h4, h5, h6, h7⟩ := accStep_spec env o (.setAttr n p)
+        exact ⟨fun _ => h7 hf (fun kvs e => by cases e), h1, h2, h3, h4, h5, h6⟩
+    · have hns : ∀ n p, op' ≠ .setAttr n p := fun n p e => h ⟨n, p, e⟩
+      rw [xstep_acc_of_not_setAttr env o op' hns] at hf ⊢
+      obtain ⟨h1, h2, h3, h4, h5, h6, h7⟩ := accStep_spec env o op'
+      refine ⟨fun hb => h7 hf ?_, h1, h2, h3, h4, h5, h6⟩
+      intro kvs e
+      subst e
+      simp [XOp.isBulk] at hb
+  | eval free => exact ⟨fun _ => rfl, rfl, rfl, rfl, rfl, rfl, rfl⟩
+  | addVariable n v =>
+    simp only [xstep, addVariableStep] at hf ⊢
+    cases hchk : addVariableCheck env o.store n v with
+    | error e => exact ⟨fun _ => rfl, rfl, rfl, rfl, rfl, rfl, rfl⟩
+    | ok ser => rw [hchk] at hf; simp [XRes.failed] at hf
+  | setPref l =>
+    simp only [xstep] at hf ⊢
+    by_cases hs : (o.store.strict && !o.prefListed) = true
+    · rw [if_pos hs]
+      exact ⟨fun _ => rfl, rfl, rfl, rfl, rfl, rfl, rfl⟩
+    · rw [if_neg hs] at hf
+      simp [XRes.failed] at hf
+  | «export» ua => exact ⟨fun _ => rfl, rfl, rfl, rfl, rfl, rfl, rfl⟩
+  | closestMatch n => exact ⟨fun _ => rfl, rfl, rfl, rfl, rfl, rfl, rfl⟩
+
+/-- **`replace_values` that fails** (HEAD applies it key by key): the instance is the one after the
+    replacement of the keys *before* the failing one — which succeeded — and the failing key's own assignment
+    failed on that instance (leaving it alone, `failed_op_preserves_state`); nothing after it was looked at.  On
+    an instance map no attribute is created or changed either. -/
+theorem failed_replace_is_prefix (env : Env α V P) (o : Obj α V P) (hc : chained o.aliases = false)
+    (kvs : List (α × P)) (hf : (xstep env o (.acc (.replaceValues kvs))).2.failed = true) :
+    ∃ pre kv post, kvs = pre ++ kv :: post ∧
+      (xstep env o (.acc (.replaceValues pre))).2.failed = false ∧
+      (xstep env o (.acc (.replaceValues kvs))).1 = (xstep env o (.acc (.replaceValues pre))).1 ∧
+      (xstep env (xstep env o (.acc (.replaceValues pre))).1 (.acc (.setItem kv.1 kv.2))).2.failed = true ∧
+      (xstep env o (.acc (.replaceValues kvs))).1.store.attrs = o.store.attrs := by
+  have hx : ∀ (o' : Obj α V P) l, xstep env o' (.acc (.replaceValues l)) = accStep env o' (.replaceValues l) :=
+    fun _ _ => rfl
+  have hxs : ∀ (o' : Obj α V P) n p, xstep env o' (.acc (.setItem n p)) = accStep env o' (.setItem n p) :=
+    fun _ _ _ => rfl
+  rw [hx] at hf
+  obtain ⟨e, he⟩ := failed_acc hf
+  simp only [aliased] at he
+  obtain ⟨pre, kv, post, hsplit, hok, herr, hst⟩ := replaceLoop_err_split _ kvs o.store he
+  have hkeep := aliasedSetItem_err env.E o.aliases _ kv.1 kv.2 herr
+  refine ⟨pre, kv, post, hsplit, ?_, ?_, ?_, ?_⟩
+  · rw [hx]
+    simp only [accStep, aliased]
+    cases hr : (replaceLoop (aliasedSetItem env.E o.aliases) o.store pre).2 with
+    | err e' => exact absurd hr (hok e')
+    | done => rfl
+    | series v => rfl
+    | value p => rfl
+  · rw [hx, hx]
+    simp only [accStep, aliased, hst, hkeep]
+  · rw [hx, hxs]
+    simp only [accStep, aliased, herr, XRes.failed]
+  · rw [hx]
+    simp only [accStep, aliased]
+    exact replaceLoop_attrs _ (aliasedSetItem_attrs env.E hc) kvs o.store
+
+/-- Operations that only look — attribute / item / label reads, `eval`, the export, `get_closest_match` — leave
+    the instance exactly as it was, whether they return or raise. -/
+theorem read_op_preserves_state (env : Env α V P) (o : Obj α V P) (op : XOp α P) (hr : op.isRead = true) :
+    (xstep env o op).1 = o := by
+  cases op with
+  | acc op' =>
+    cases op' with
+    | getAttr n => simp [xstep, accStep, aliased]
+    | getItem n => simp [xstep, accStep, aliased]
+    | getAt n ix => simp [xstep, accStep, aliased]
+    | setAttr n p => simp [XOp.isRead] at hr
+    | setItem n p => simp [XOp.isRead] at hr
+    | setAt n ix p => simp [XOp.isRead] at hr
+    | replaceValues kvs => simp [XOp.isRead] at hr
+    | raw id => simp [XOp.isRead] at hr
+  | eval free => rfl
+  | addVariable n v => simp [XOp.isRead] at hr
+  | setPref l => simp [XOp.isRead] at hr
+  | «export» ua => rfl
+  | closestMatch n => rfl
+
+/-- **Resolution depends on the alias map and the name only.**  No operation — failed or not — changes the alias
+    map, so after ANY history name resolution is the function `resolve aliases` it was at construction; and two
+    instances that hold the same alias map resolve every name alike after any two histories, whatever their stores,
+    name lists, preferences and `strict` flags, and whatever was rejected on the way: there is no hidden per-object
+    state behind `_resolve_alias`. -/
+theorem resolution_depends_only_on_aliases (env : Env α V P) (o o' : Obj α V P) (h : o.aliases = o'.aliases)
+    (ops ops' : List (XOp α P)) (n : α) :
+    (xrun env o ops).1.aliases = o.aliases ∧
+    (xrun env o ops).1.resolve n = resolve o.aliases n ∧
+    (xrun env o ops).1.resolve n = (xrun env o' ops').1.resolve n := by
+  have h1 := xrun_aliases env ops o
+  have h2 := xrun_aliases env ops' o'
+  refine ⟨h1, ?_, ?_⟩
+  · simp [Obj.resolve, h1]
+  · simp [Obj.resolve, h1, h2, h]
+
+/-- **The plain twin, one operation.**  `p` = the same object without the mixin (same container state and name
+    list, no alias).  On an instance map, under the guard of §2, every operation that exists on both — the
+    accessors, `eval`, `add_variable`, the plain export, `get_closest_match` — gives the same result through the
+    mixin as the plain object gives for the resolved names (in particular it **fails iff the canonical operation
+    fails, with the same class**), and afterwards the two are twins again: same series, same index, same
+    attributes, same `names`. -/
+theorem plain_twin_agrees (env : Env α V P) {a : AMap α} (hc : chained a = false) {o p : Obj α V P}
+    (ht : Twin a o p) (hinv : Inv a o.store) (op : XOp α P) (htw : op.twinnable = true) :
+    (xstep env o op).2 = (xstep env p (op.mapName (resolve a))).2 ∧
+    ((xstep env o op).2.failed = (xstep env p (op.mapName (resolve a))).2.failed) ∧
+    (xstep env p (op.mapName (resolve a))).1.store = (xstep env o op).1.store ∧
+    (xstep env p (op.mapName (resolve a))).1.names = (xstep env o op).1.names ∧
+    Twin a (xstep env o op).1 (xstep env p (op.mapName (resolve a))).1 := by
+  obtain ⟨h1, h2, _⟩ := twin_step env hc ht hinv op htw
+  exact ⟨h1, by rw [h1], h2.1, h2.2.1, h2⟩
+
+/-- **The plain twin, all histories** — successful and failed operations interleaved in any order. -/
+theorem plain_twin_history (env : Env α V P) {a : AMap α} (hc : chained a = false) {o p : Obj α V P}
+    (ht : Twin a o p) (hinv : Inv a o.store) (ops : List (XOp α P)) (htw : ∀ op ∈ ops, op.twinnable = true) :
+    (xrun env o ops).2 = (xrun env p (ops.map (XOp.mapName (resolve a)))).2 ∧
+    (xrun env p (ops.map (XOp.mapName (resolve a)))).1.store = (xrun env o ops).1.store ∧
+    (xrun env p (ops.map (XOp.mapName (resolve a)))).1.names = (xrun env o ops).1.names := by
+  obtain ⟨h1, h2⟩ := twin_run env hc ops ht hinv htw
+  exact ⟨h1, h2.1, h2.2.1⟩
+
+/-- `o.plain` is a twin of `o`. -/
+theorem plain_is_twin (o : Obj α V P) : Twin o.aliases o o.plain := ⟨rfl, rfl, rfl, rfl⟩
+
 end Fsic.C18
 
 /-! ## Concrete instances that meet the hypotheses used above -/
@@ -658,6 +815,72 @@ example : (run (aliased exE [("GDP", "Y"), ("income", "Y")]) exS [.setAttr "memo
 example : WF [("GDP", "Y"), ("income", "Y")] ∧ prefCheck [("GDP", "Y"), ("income", "Y")] ["income"] = true := by
   unfold WF keys; decide
 
+
+-- error paths (§7): a model with Y, C, aliases GDP / income → Y; `closest` = the spellings that agree up to case
+def exFold (s : String) : String := if s = "y" then "Y" else if s = "c" then "C" else s
+def exEnv : Env String (List Nat) Nat where
+  E := exE
+  closest := fun names n => names.filter fun x => exFold x = exFold n
+  us := fun n => "_" ++ n
+  newSeries := fun p => if p = 0 then .error .dimensionError else .ok [p, p]
+  le := strLe
+  internal := fun s => s.toList.head? = some '_'
+  tail := ["status", "iterations"]
+  prefName := "preferred_names"
+
+def exObj (strict : Bool) (names : List String := ["Y", "C"]) : Obj String (List Nat) Nat :=
+  ⟨⟨strict, names.map fun n => (n, [1, 2]), [("span", 0), ("names", 0)]⟩, names, [("GDP", "Y"), ("income", "Y")], [], false⟩
+
+-- the hypotheses of `plain_twin_agrees` / `plain_twin_history` are met by an instance and its `.plain`
+example : chained (exObj true).aliases = false ∧ Inv (exObj true).aliases (exObj true).store := by
+  unfold Alias.Inv; decide
+-- strict=True, a typo of an alias: AttributeError, nothing moved (the error path read `names`: no suggestion here)
+example : (xstep exEnv (exObj true) (.acc (.setAttr "GDPP" 5))).2.failed = true ∧
+    (xstep exEnv (exObj true) (.acc (.setAttr "GDPP" 5))).1.names = ["Y", "C"] ∧
+    (xstep exEnv (exObj true) (.acc (.setAttr "GDPP" 5))).1.aliases = [("GDP", "Y"), ("income", "Y")] ∧
+    (xstep exEnv (exObj true) (.acc (.setAttr "GDPP" 5))).1.store.vars = [("Y", [1, 2]), ("C", [1, 2])] ∧
+    (xstep exEnv (exObj true) (.acc (.setAttr "GDPP" 5))).1.store.attrNames = ["span", "names"] := by decide
+-- two variables that differ by case only: the near miss ties, NotImplementedError; one match: AttributeError
+example : strictError exEnv (exObj true ["Y", "y", "C"]) "Y" = .notImplementedError ∧
+    strictError exEnv (exObj true ["Y", "y", "C"]) "c" = .attributeError := by decide
+-- the same assignment without strict succeeds (an ad-hoc attribute): the failure above is not vacuous
+example : (xstep exEnv (exObj false) (.acc (.setAttr "GDPP" 5))).2.failed = false ∧
+    (xstep exEnv (exObj false) (.acc (.setAttr "GDPP" 5))).1.store.attrNames = ["span", "names", "GDPP"] := by decide
+-- eval: an alias is an undefined name (AttributeError), variables evaluate; nothing moves either way
+example : (xstep exEnv (exObj false) (.eval ["Y", "GDP"])).2.failed = true ∧
+    (xstep exEnv (exObj false) (.eval ["Y", "C"])).2.failed = false ∧
+    (xstep exEnv (exObj false) (.eval ["Y", "GDP"])).1.names = ["Y", "C"] := by decide
+-- add_variable: existing variable / attribute / taken storage key / ill-shaped value fail; a new name extends names
+example : (xstep exEnv (exObj false) (.addVariable "Y" 7)).2.failed = true ∧
+    (xstep exEnv (exObj false) (.addVariable "span" 7)).2.failed = true ∧
+    (xstep exEnv (exObj false ["Y", "_W"]) (.addVariable "_W" 7)).2.failed = true ∧
+    (xstep exEnv (xstep exEnv (exObj false) (.acc (.setAttr "_W" 5))).1 (.addVariable "W" 7)).2.failed = true ∧
+    (xstep exEnv (exObj false) (.addVariable "W" 0)).2.failed = true ∧
+    (xstep exEnv (exObj false) (.addVariable "W" 0)).1.names = ["Y", "C"] ∧
+    (xstep exEnv (exObj false) (.addVariable "W" 7)).1.names = ["Y", "C", "W"] ∧
+    (xstep exEnv (exObj false) (.addVariable "GDP" 7)).1.names = ["Y", "C", "GDP"] := by decide
+-- replace_values with a bad key in the middle: the key before it is stored, the one after it is not
+example : (xstep exEnv (exObj false) (.acc (.replaceValues [("GDP", 6), ("nope", 1), ("C", 9)]))).2.failed = true ∧
+    (xstep exEnv (exObj false) (.acc (.replaceValues [("GDP", 6), ("nope", 1), ("C", 9)]))).1.store.vars
+      = [("Y", [6, 6]), ("C", [1, 2])] ∧
+    (xstep exEnv (exObj false) (.acc (.replaceValues [("GDP", 6), ("nope", 1), ("C", 9)]))).1.names = ["Y", "C"] := by
+  decide
+-- preferred_names at run time: rejected under strict; otherwise stored, and two aliases of Y make the export raise
+example : (xstep exEnv (exObj true) (.setPref ["GDP", "income"])).2.failed = true ∧
+    (xstep exEnv (exObj true) (.setPref ["GDP", "income"])).1.pref = [] ∧
+    (xstep exEnv (xstep exEnv (exObj false) (.setPref ["GDP", "income"])).1 (.export true)).2.failed = true ∧
+    (xstep exEnv (xstep exEnv (exObj false) (.setPref ["GDP"])).1 (.export true)).2.failed = false := by decide
+-- a history with failures in it: the plain twin through the resolved names ends with the same series and names
+example : (xrun exEnv (exObj true) [.acc (.setItem "GDP" 4), .acc (.setAttr "GDPP" 5), .eval ["income"],
+      .acc (.getItem "nope"), .addVariable "Y" 1, .acc (.setAt "income" 1 8)]).1.store.vars
+    = (xrun exEnv (exObj true).plain [.acc (.setItem "Y" 4), .acc (.setAttr "GDPP" 5), .eval ["income"],
+      .acc (.getItem "nope"), .addVariable "Y" 1, .acc (.setAt "Y" 1 8)]).1.store.vars ∧
+    (xrun exEnv (exObj true) [.acc (.setItem "GDP" 4), .acc (.setAttr "GDPP" 5), .eval ["income"],
+      .acc (.getItem "nope"), .addVariable "Y" 1, .acc (.setAt "income" 1 8)]).1.store.vars
+    = [("Y", [4, 8]), ("C", [1, 2])] ∧
+    ((xrun exEnv (exObj true) [.acc (.setItem "GDP" 4), .acc (.setAttr "GDPP" 5), .eval ["income"],
+      .acc (.getItem "nope"), .addVariable "Y" 1, .acc (.setAt "income" 1 8)]).2.map XRes.failed)
+    = [false, true, true, true, true, false] := by decide
 
 -- export with options: `_H` is internal, `wealth` its alias; status / iterations on and off
 def exVars : List (String × Nat) := [("Y", 1), ("_H", 2), ("G", 3)]
